@@ -14,12 +14,14 @@ from . import value_common as vc
 
 PID = "C08"
 
-LITERALS = ["a", "5", 'a"b', "a'b", "a\\\\b", '" + "', '" * 3 + "', '" if 1 else "', "%s", "{0}", "9**9**9", "x" * 300,
+LITERALS = ["a", "5", 'a"b', "a'b", "a\\\\b", "a\\\\", "\\\\x41", '" + "', '" * 3 + "', '" if 1 else "', "%s", "{0}", "9**9**9", "x" * 300,
             "__import__('os')", "\\n", "1 if 1 else 2", "'; import os; '"]
 CONTEXTS = {
     "concat-left": "t = {lit}\nu = t + 'y'\nk = 1 + 2\n",
     "concat-right": "t = {lit}\nu = 'y' + t\nk = 1 + 2\n",
     "concat-twice": "t = {lit}\nu = t + t\nk = 1 + 2\n",
+    "concat-chain": "t = {lit}\nw = t + 'b'\nu = w + 'c'\nk = 1 + 2\n",
+    "concat-chain-left": "t = {lit}\nw = 'a' + t\nu = w + 'c'\nk = 1 + 2\n",
     "compare": "t = {lit}\nu = t == 'y'\nk = 1 + 2\n",
     "repeat": "t = {lit}\nu = t * 2\nk = 1 + 2\n",
     "passed": "def idf(p):\n    return p\nt = {lit}\nu = idf(t) + 'y'\nk = 1 + 2\n",
@@ -93,7 +95,7 @@ def main():
                 rep.feature_violation(bad, set(feats), f"definition of {var} at statement {sid}: concrete values {tvals}, analysis has {ovals}; program:\n{text}",
                                       {"source": text, "stmt": sid, "var": var}, size=size * 1000 + len(text), text=text)
     # (b) hostile literals
-    lits = LITERALS if not quick else LITERALS[:12]
+    lits = LITERALS if not quick else LITERALS[:14]
     cases = [(py_literal(l), c) for l in lits for c in CONTEXTS]
     base = {}
     results = {}
@@ -115,7 +117,8 @@ def main():
             rep.violation(f"literal-alters-other-value:{ctx}", f"k = 1 + 2 has {res['values'].get('k')} (baseline {b['values'].get('k')}) [{ident}]",
                           {"literal": lit, "context": ctx}, size=len(lit), ident=lit)
         real = eval(lit)
-        expect = {"concat-left": real + "y", "concat-right": "y" + real, "concat-twice": real + real, "passed": real + "y", "field": real + "y"}.get(ctx)
+        expect = {"concat-left": real + "y", "concat-right": "y" + real, "concat-twice": real + real, "passed": real + "y", "field": real + "y",
+                  "concat-chain": real + "bc", "concat-chain-left": "a" + real + "c"}.get(ctx)
         u = res["values"].get("u") or []
         if expect is not None:
             regular = [v for v, dt in u if v != "<unknown>"]
